@@ -179,6 +179,29 @@ def run(chk):
         chk.ob("R3 exclusion", "R3|non-empty-list", c_nonempty, site, "necessary conditions of the CredentialExcluded return: " + cs)
         chk.ob("R3 exclusion", "R3|lookup-ok", c_ok, site, "lookup result must be Ok: %s" % c_ok)
         chk.ob("R3 exclusion", "R3|result-not-empty", c_notempty, site, "is_empty(result) == false edge: %s" % c_notempty)
+        # "exactly when": nothing but the option check and the consent step can refuse the request before the exclusion is
+        # decided — every other test that must pass on the way to the CredentialExcluded return and whose failure ends the
+        # ceremony with an error would answer an excluded request with that other error
+        outs_ = [s_ for s_ in flow.outcome_sites(mc) if s_["path"] == ()]
+        early = []
+        for sb, labs, term in flow.conditions(p, mc, bb, T):
+            tn = N.norm(term)
+            if flow.term_contains(tn, lambda x: x == ("field", ("field", ("upvar", 1), "options"), "up")):
+                continue
+            if flow.term_contains(tn, lambda x: isinstance(x, tuple) and x and x[0] == "await" and (names.is_(x[1], "Authenticator::check_user") or names.is_(x[1], "UserValidationMethod::check_user"))):
+                continue
+            if flow.term_contains(tn, is_lookup) or flow.term_contains(tn, is_list):
+                continue
+            taken = [sc for sc in mc.succs(sb) if flow.edge_label(mc, sb, sc) == labs]
+            for sc in set(mc.succs(sb)) - set(taken):
+                if mc.blocks[sc]["cleanup"]:
+                    continue
+                reach = mc.reachable([sc], follow_yield_drop=False) | {sc}
+                kinds = {s_["kind"] for s_ in outs_ if s_["bb"] in reach}
+                if kinds and "Ok" not in kinds and (kinds & {"Err", "residual", "call"}):
+                    early.append("%s (at %s)" % (flow.term_str(tn)[:90], where(mc, sb)))
+        chk.ob("R3 exclusion", "R3|nothing-but-consent-refuses-before-exclusion", not early, site,
+               ("a request that names a held credential is refused with another error first: failing test(s) before the exclusion decision: %s" % "; ".join(early[:3])) if early else "on the way to the CredentialExcluded return only the `up` option and the consent step can fail")
         # nothing is created after the exclusion decision
         after = mc.reachable(bb)
         eff = [b2 for b2, t in mc.calls() if b2 in after and names.call_is(t, "CredentialStore::save_credential", "SecretKey::random", "rand::random_vec", "random_vec")]
@@ -305,6 +328,33 @@ def run(chk):
                         other.append("%s at %s" % (short(cal), where(b, bb2)))
             chk.ob("R5 ids matched exactly", "R5|%s|ids-matched-by-equality" % st, bool(good) and not other, where(co),
                    "descriptor ids are consumed by %s%s" % (sorted(set(good)), (" and by " + "; ".join(other) + " — not an equality of whole ids: an id that is merely similar (prefix, different length) selects the credential") if other else ""))
+    # R5 (second half): *every* listed id counts — the descriptor list is walked as a whole (iter / into_iter / contains and
+    # a searching or filtering consumer), never read through an accessor of one position or a truncating adaptor
+    PARTIAL = ("slice::first", "slice::last", "slice::get", "slice::split_first", "slice::split_last", "slice::first_chunk", "slice::last_chunk",
+               "Index::index", "slice::get_unchecked", "Iterator::take", "Iterator::nth", "Iterator::skip", "Iterator::step_by", "Iterator::last",
+               "Iterator::take_while", "Iterator::skip_while", "DoubleEndedIterator::next_back", "DoubleEndedIterator::nth_back", "Iterator::max_by_key", "Iterator::min_by_key")
+    for (adt, trait, name), bodies in sorted(p.methods.items(), key=lambda kv: str(kv[0])):
+        if trait != tpath or name != "find_credentials":
+            continue
+        for fb in bodies:
+            co = p.async_body(fb) or fb
+            stn = tidy(adt or "?")
+            of_desc = lambda t: "PublicKeyCredentialDescriptor" in ((t.get("callee_full") or "") + " " + " ".join(t.get("gargs") or []))
+            bad, walks = [], 0
+            for b in p.nested_of(co):
+                for bb2, t2 in b.calls():
+                    if not of_desc(t2):
+                        continue
+                    if names.call_is(t2, *PARTIAL):
+                        bad.append("%s at %s" % (short(core.callee_of(t2)), where(b, bb2)))
+                    elif names.call_is(t2, "Iterator::next") and bb2 not in b.reachable(b.succs(bb2)):
+                        bad.append("a single Iterator::next outside a loop at %s" % where(b, bb2))
+                    elif names.call_is(t2, "slice::iter", "IntoIterator::into_iter", "slice::contains"):
+                        walks += 1
+            uses_ids = any(of_desc(t2) for b in p.nested_of(co) for bb2, t2 in b.calls())
+            if uses_ids:
+                chk.ob("R5 ids matched exactly", "R5|%s|every-listed-id-counts" % stn, not bad and walks >= 1, where(co),
+                       ("the descriptor list is read through %s — only part of the list is looked at: a credential named further down the allow / exclude list is missed" % "; ".join(bad)) if bad else "the descriptor list is walked as a whole (%d traversal(s)), no positional accessor or truncating adaptor" % walks)
     chk.require("R4 store contract", "R4|impl-count", n_impl >= 2, tpath, "expected >= 2 CredentialStore impls (all-features: 6), found %d" % n_impl)
     chk.floor("R1", 4)
     chk.floor("R2", 2)
